@@ -870,16 +870,182 @@ Proof.
   split; [|split]; intros; split; rewrite ?events_seed_first, ?samples_seed_first; reflexivity.
 Qed.
 
-(* the same for a run whose every later decision is an arbitrary function of the history: as soon as
-   the first instruction is the seed, nothing depends on the ambient generator state *)
+(* ------------------------------------------------------------------ repeatability with derived schedules *)
+(* an adaptive run is the run of the instructions it chose *)
+Lemma arun_is_run fuel D : forall st oh hist,
+  exists chosen, arun fuel D st oh hist = (oh ++ chosen, hist ++ events chosen st, samples chosen st).
+Proof.
+  induction fuel as [|f IH]; intros st oh hist; simpl.
+  - exists []. unfold events, samples. simpl. now rewrite !app_nil_r.
+  - destruct (D oh hist) as [o|].
+    + destruct (step st o) as [st' [e s]] eqn:Es.
+      destruct (IH st' (oh ++ [o]) (hist ++ e)) as [ch Hch]. rewrite Hch.
+      exists (o :: ch). rewrite events_cons, samples_cons, Es. simpl. now rewrite <- !app_assoc.
+    + exists []. unfold events, samples. simpl. now rewrite !app_nil_r.
+Qed.
+
+(* every later decision (instructions, schedules, levels, passes) is an arbitrary function of what has
+   happened; as soon as the first instruction is the seed, the instructions chosen, the events and the
+   samples are the same from any two ambient generator states *)
 Theorem seeded_repeatable_adaptive : forall D fuel s g1 g2,
-  D [] = Some (OSeed s) -> arun fuel D (init g1) [] = arun fuel D (init g2) [].
+  D [] [] = Some (OSeed s) -> arun fuel D (init g1) [] [] = arun fuel D (init g2) [] [].
 Proof. intros D [|f] s g1 g2 H; simpl; [reflexivity|]. rewrite H. reflexivity. Qed.
+
+Lemma derive_samples_length val nxt n : forall fuel st slot fixed lvl,
+  length (derive_samples val nxt n fuel st slot fixed lvl) = n.
+Proof. induction n as [|k IH]; intros; simpl; auto. Qed.
+
+(* standard engine, schedule DERIVED by the run from the values of the variates (val, nxt arbitrary):
+   with a seed, two runs from different ambient generator states derive the same schedule, hence have
+   the same events, the same positions and the same values in every sample *)
+Theorem std_seeded_repeatable_derived : forall val nxt fuel s t m n g1 g2,
+  let ss1 := std_derived val nxt fuel (Some s) t m n g1 in
+  let ss2 := std_derived val nxt fuel (Some s) t m n g2 in
+  ss1 = ss2
+  /\ len ss1 = Z.of_nat n
+  /\ events (std_ops (Some s) t m ss1) (init g1) = events (std_ops (Some s) t m ss2) (init g2)
+  /\ map (fun sm => map val (snd sm)) (samples (std_ops (Some s) t m ss1) (init g1))
+     = map (fun sm => map val (snd sm)) (samples (std_ops (Some s) t m ss2) (init g2)).
+Proof.
+  intros. assert (E : ss1 = ss2).
+  { unfold ss1, ss2, std_derived. simpl seed_choice.
+    change (snd (run (OSeed s :: pre m 0 (Z.of_nat n)) (init g1))) with (final (OSeed s :: pre m 0 (Z.of_nat n)) (init g1)).
+    change (snd (run (OSeed s :: pre m 0 (Z.of_nat n)) (init g2))) with (final (OSeed s :: pre m 0 (Z.of_nat n)) (init g2)).
+    now rewrite !final_seed_first. }
+  split; [exact E|]. split.
+  - unfold ss1, std_derived, len. now rewrite derive_samples_length.
+  - rewrite <- E. unfold std_ops. simpl seed_choice. rewrite !events_seed_first, !samples_seed_first. split; reflexivity.
+Qed.
+
+(* before the fix (rows drawn before the seed): the derived schedule itself depends on the ambient state *)
+Theorem std_derived_orig_refuted :
+  exists val nxt fuel s t m n g1 g2,
+    std_derived_orig val nxt fuel (Some s) t m n g1 <> std_derived_orig val nxt fuel (Some s) t m n g2.
+Proof.
+  exists (fun p => snd (fst p)),
+         (fun seen => match seen with [v] => Some (false, Z.abs v, false) | _ => None end),
+         3%nat, 7, 0, (mkMode true 1 1), 1%nat, (mkGen 1 0 0), (mkGen 2 0 0).
+  vm_compute. discriminate.
+Qed.
 
 (* the trace of a seeded run does not depend on the clock either; that of an unseeded run depends on it only *)
 Theorem seeded_ignores_clock : forall s t1 t2 m ss g,
   events (std_ops (Some s) t1 m ss) (init g) = events (std_ops (Some s) t2 m ss) (init g).
 Proof. reflexivity. Qed.
+
+(* ------------------------------------------------------------------ no pop on an empty deque *)
+Definition nu (ops : list op) : Prop := forall st, underflows (events ops st) = O.
+Lemma nu_app a b : nu a -> nu b -> nu (a ++ b).
+Proof. intros Ha Hb st. rewrite events_app, underflows_app, Ha, Hb. reflexivity. Qed.
+Lemma nu_nil : nu [].
+Proof. intro st. reflexivity. Qed.
+Lemma nu_cons_copy src dst r : nu r -> nu (OCopy src dst :: r).
+Proof. intros H st. rewrite events_cons. simpl. apply H. Qed.
+Lemma nu_pre m s n : nu (pre m s n).
+Proof.
+  unfold pre. destruct (m_fixed m); [|apply nu_nil]. intro st. rewrite events_cons. simpl.
+  rewrite !underflows_app. simpl. rewrite underflows_map_draw by (intros; eauto). reflexivity.
+Qed.
+Lemma nu_samples_free slot lvl ss : nu (map (fun d => OSample slot false lvl d) ss).
+Proof.
+  induction ss as [|d ss IH]; intro st; simpl; [reflexivity|]. rewrite events_cons. simpl.
+  pose proof (underflows_draws d (s_gen st)) as Hu.
+  destruct (draws_run (s_gen st) d) as [[e2 r2] g'] eqn:Ed. simpl in *.
+  rewrite !underflows_app. simpl. rewrite Hu. apply IH.
+Qed.
+Lemma nu_level m s lvl ss r : nu r -> nu (pre m s (len ss) ++ samples_ops m s lvl ss ++ r).
+Proof.
+  intros Hr. unfold pre, samples_ops. destruct (m_fixed m) eqn:E.
+  - rewrite app_assoc. apply nu_app; [|exact Hr]. intro st.
+    destruct (level_block_ok s (m_nb m) (m_dim m) lvl ss (len ss) st eq_refl) as [[U _] _]. exact U.
+  - simpl. apply nu_app; [apply nu_samples_free|exact Hr].
+Qed.
+Lemma nu_mlp_levels m levels : forall cr lvl r, nu r -> nu (fst (mlp_levels m cr lvl levels) ++ r).
+Proof.
+  induction levels as [|ss rest IH]; intros cr lvl r Hr; simpl; auto.
+  destruct (mlp_levels m (if cr <=? lvl then cr + 1 else cr) (lvl + 1) rest) as [body crf] eqn:E. simpl.
+  specialize (IH (if cr <=? lvl then cr + 1 else cr) (lvl + 1) r Hr). rewrite E in IH. simpl in IH.
+  repeat rewrite <- app_assoc.
+  destruct (cr <=? lvl).
+  - simpl. apply nu_cons_copy. apply nu_app; [apply nu_pre|]. apply nu_level. exact IH.
+  - simpl. apply nu_level. exact IH.
+Qed.
+Lemma nu_mlp_passes m ps : forall cr, nu (mlp_passes m cr ps).
+Proof.
+  induction ps as [|p r IH]; intros cr; simpl; [apply nu_nil|].
+  pose proof (nu_mlp_levels m (p_levels p) cr 0) as H.
+  destruct (mlp_levels m cr 0 (p_levels p)) as [body cr1]. simpl in H.
+  destruct (p_add p) as [mm|].
+  - apply H. apply nu_cons_copy. apply nu_app; [apply nu_pre|apply IH].
+  - apply H. apply IH.
+Qed.
+
+Lemma nu_seed_first s body g : nu body -> underflows (events (OSeed s :: body) (init g)) = O.
+Proof. intros H. rewrite events_seed_first. simpl. apply H. Qed.
+
+(* standard engine and adaptive multilevel price: never, for any schedule/history and either mode;
+   constant multilevel run: when every level simulates n0 samples (what its loops do) *)
+Theorem no_underflow : forall seed t m g,
+  (forall ss, underflows (events (std_ops seed t m ss) (init g)) = O)
+  /\ (forall n0 passes, underflows (events (mlp_ops seed t m n0 passes) (init g)) = O)
+  /\ (forall nb d n0 levels, Forall (fun ss => len ss = n0) levels ->
+        underflows (events (mlc_ops seed t (mkMode true nb d) n0 levels) (init g)) = O)
+  /\ (forall nb d n0 levels, underflows (events (mlc_ops seed t (mkMode false nb d) n0 levels) (init g)) = O).
+Proof.
+  intros. split; [|split; [|split]].
+  - intros ss. apply nu_seed_first. rewrite <- (app_nil_r (samples_ops m 0 (-1) ss)). apply nu_level, nu_nil.
+  - intros n0 ps. apply nu_seed_first. unfold mlp_body. apply nu_app; [apply nu_pre|]. apply nu_cons_copy, nu_mlp_passes.
+  - intros nb d n0 levels HF. destruct levels as [|ss r].
+    + apply nu_seed_first. unfold mlc_body. apply nu_app; [apply nu_pre|]. apply nu_cons_copy, nu_nil.
+    + destruct (rows_exactly_once_engines seed t nb d g) as [_ H].
+      destruct (H (ss :: r) n0) as (U & _); [discriminate|exact HF|exact U].
+  - intros nb d n0 levels. apply nu_seed_first. unfold mlc_body, pre. simpl.
+    apply nu_cons_copy. destruct levels as [|ss r]; [apply nu_nil|].
+    unfold samples_ops. simpl. apply nu_app; [apply nu_samples_free|].
+    assert (G : forall lv l, nu (mlc_levels (mkMode false nb d) n0 l lv)).
+    { induction lv as [|x lv IHl]; intros l; simpl; [apply nu_nil|]. unfold pre, samples_ops. simpl.
+      apply nu_app; [apply nu_samples_free|apply IHl]. }
+    apply G.
+Qed.
+
+(* the adaptive price(): "exactly once" is false: initialisation() and next_level() of an added level
+   pre-draw rows that are replaced by the next pre_computation before any pop *)
+Theorem adaptive_price_exactly_once_refuted :
+  exists seed t m n0 passes g tg,
+    In tg (created (events (mlp_ops seed t m n0 passes) (init g)))
+    /\ ~ In tg (popped (events (mlp_ops seed t m n0 passes) (init g))).
+Proof.
+  exists (Some 7), 0, (mkMode true 1 1), 2, [mkPass [[[]]; [[]]] (Some 3); mkPass [[]; []; [[]]] None], (mkGen (-1) 0 0), (1, 0).
+  split; vm_compute; [tauto|]. intros H. repeat (destruct H as [H|H]; [discriminate|]). exact H.
+Qed.
+
+(* ------------------------------------------------------------------ seeds of the worker processes *)
+Lemma seed_of_inj now p q : 0 <= now < 2 ^ 32 -> seed_of p now = seed_of q now -> p = q.
+Proof. unfold seed_of. lia. Qed.
+Lemma seed_of_inj2 p q t u : 0 <= t < 2 ^ 32 -> 0 <= u < 2 ^ 32 -> seed_of p t = seed_of q u -> p = q /\ t = u.
+Proof. unfold seed_of. lia. Qed.
+
+Lemma NoDup_seed_of now pids : NoDup pids -> NoDup (map (fun p => seed_of p now) pids).
+Proof. intros H. apply NoDup_map_intro; auto. intros a a' _ _ E. unfold seed_of in E. lia. Qed.
+
+Theorem pool_jump_mode_disjoint_pids : forall g0 nb d n pids now chunks,
+  NoDup pids -> Forall (fun c : nat * list sched => (fst c < length pids)%nat) chunks ->
+  NoDup (flat_map snd (snd (pool_run_pids g0 (mkMode false nb d) n pids now chunks))).
+Proof.
+  intros. unfold pool_run_pids. apply pool_jump_mode_disjoint; [apply NoDup_seed_of; auto|].
+  now rewrite map_length.
+Qed.
+
+(* before: the product pid*now is reduced mod 123456789: two processes get the same seed exactly when
+   123456789 divides (p - q) * now -- for every pair of pids when now is a multiple of 123456789 *)
+Lemma seed_of_orig_collision p q now :
+  seed_of_orig p now = seed_of_orig q now <-> (123456789 | (p - q) * now).
+Proof.
+  unfold seed_of_orig. split.
+  - intros H. exists (p * now / 123456789 - q * now / 123456789).
+    pose proof (Z.div_mod (p * now) 123456789). pose proof (Z.div_mod (q * now) 123456789). lia.
+  - intros [k Hk]. replace (p * now) with (q * now + k * 123456789) by lia. apply Z_mod_plus_full.
+Qed.
 
 (* ------------------------------------------------------------------ witnesses *)
 Fixpoint memb (x : pos) (l : list pos) : bool :=
@@ -944,3 +1110,15 @@ Theorem workers_share_rows_refuted :
   /\ popped (nth 0 (snd (fst pool_witness)) []) = [(2, 0); (1, 0)]
   /\ popped (nth 1 (snd (fst pool_witness)) []) = [(2, 0); (1, 0)].
 Proof. split; [apply dupb_sound; vm_compute; reflexivity|]. split; vm_compute; reflexivity. Qed.
+
+(* F-C08-8 (before the fix: commit of fix-rng2): at now = k * 123456789 every worker gets seed 0 *)
+Theorem worker_seeds_collide_refuted :
+  (forall p q k, seed_of_orig p (k * 123456789) = seed_of_orig q (k * 123456789))
+  /\ ~ NoDup (flat_map snd (snd (pool_run_pids_orig (mkGen (-1) 0 0) (mkMode false 1 1) 2 [4001; 4002] (13 * 123456789)
+                                   [(0%nat, [[(false, 1, false)]]); (1%nat, [[(false, 1, false)]])]))).
+Proof.
+  split.
+  - intros p q k. apply seed_of_orig_collision. exists ((p - q) * k). lia.
+  - apply dupb_sound. vm_compute. reflexivity.
+Qed.
+
